@@ -1572,7 +1572,7 @@ class Scalar(Qube):
             if not isinstance(new_values, numbers.Real):
                 return self.masked_single(recursive)
 
-            new_mask = False
+            new_mask = Qube.or_(self._mask_, expo._mask_)
             new_units = Units.units_power(self._units_, expo._values_)
 
         # Array case
